@@ -387,7 +387,8 @@ class error_997_visitor(error_visitor.error_visitor):
             if err_cde in valid_AK4_codes:
                 seg_data = pyx12.segment.Segment(seg_str, '~', '*', ':')
                 seg_data.set('AK403', err_cde)
-                if bad_value:
+                if bad_value and not any(c in bad_value for c in (self.seg_term, self.ele_term, self.subele_term)):
+                    # a value holding one of this document's delimiters cannot be quoted (AK404 is optional)
                     seg_data.set('AK404', bad_value)
                 self._write(seg_data)
 
